@@ -94,6 +94,17 @@ def shards(tier):
             for la in range(6) for lb in range(6)]
 
 
-SUBCHECKS = [SubCheck("overlap", judge, shards, strategy=strategy)]
+def strategy_many(shard):
+    """10-13 small shells: two-digit shell indices, many blocks."""
+    sh_ = gen.basis(nmin=10, nmax=13, lmax=1, kmax=2, mmax=2, exp_lo=0.1, exp_hi=20.0, halves=(2.0, 5.0), p_same=0.2)
+    return st.fixed_dictionaries({"shells": sh_, "split": st.integers(1, 9)})
+
+
+def shards_many(tier):
+    return [{"id": i, "n": 1 if tier == "quick" else 6, "la": 0, "lb": 0, "cost": 30} for i in range(4 if tier == "quick" else 16)]
+
+
+SUBCHECKS = [SubCheck("overlap", judge, shards, strategy=strategy),
+             SubCheck("many-shells", judge, shards_many, strategy=strategy_many)]
 EXHAUSTIVE = {"l_pairs": "all 36 ordered (l_a,l_b) in 0..5"}
 EXPECTED_CLASSES = ["overlap/mixed", "overlap/generalized", "overlap/placed-by-prefactor", "overlap/structural-zeros"]
